@@ -314,7 +314,19 @@ void World::opBuild(const Item& op)
         }
     }
     Bytes before = slot.b->raw();
-    slot.b->setData(bd);
+    if (op.get("via", 0) && !slot.fromWire)
+    {
+        // the content arrives by copy assignment from a sibling object that was given it (same header fields): the raw
+        // bytes still "depend only on the final logical content, not on what the object held before"
+        lib::Builder donor(cls);
+        if (slot.hasFields)
+            donor.setHeaderFields(slot.fields);
+        donor.setData(bd);
+        slot.b->assignFrom(donor);
+        probe("content-by-assignment");
+    }
+    else
+        slot.b->setData(bd);
     res.apiCalls++;
     Bytes after = slot.b->raw();
     evBytes(after.data(), after.size(), "built-payload");
